@@ -130,10 +130,11 @@ package dns
 //@ func HashName [C17]
 //@   opt no-safety
 //@   assert at "return toBase32(nsec3)" rounds: k == iter
-//@   loop 1 invariant k <= iter
+//@   loop 1 invariant fold: 0-1 <= rangeindex && rangeindex < len(name) && len(name) == len(pk) && (forall k in 0..rangeindex+1 :: name[k] == lower(pk[k])) && (forall k in rangeindex+1..len(name) :: name[k] == pk[k])
+//@   loop 2 invariant k <= iter
 // x is the wire form of the name as given, with the ASCII letters A-Z of its octets lower-cased and no other octet
 // changed (names are octet strings: a letter written \DDD is a letter, an octet above 127 is not text)
-//@   ghost pk at "name = name[:off]" name
+//@   ghost pk at "for i, c := range name {" name
 //@   assert at "s := sha1.New()" canon: callarg("PackDomainName", 0) == label && len(name) == len(pk) && (forall k in 0..len(name) :: name[k] == lower(pk[k]))
 //@   callsite "PackDomainName" whole: arg2 == 0 && arg3 == nil && !arg4
 //@   assert at "s.Write(wireSalt)@1" name1: same(callarg("Write", 0), name) && len(name) == off
